@@ -458,7 +458,6 @@ package simple
 // NewDirectedMatrix establishes dmInv; Nodes returns an iterator over exactly the node set.
 // (NewDirectedMatrixFrom, NewUndirectedMatrixFrom are not under contract: sort.Slice.)
 
-
 //@ func NewDirectedMatrix props: C12
 //@ requires n > 0
 //@ floats: ieee
